@@ -121,3 +121,190 @@ Theorem premises_hold_for_an_example :
   wf_expr autovars switches env_errors parse_format consts script 1 (e_ex consts) /\ lok_expr (e_ex consts) /\ pure_expr (e_ex consts).
 Proof. exact BexpParse.premises_hold. Qed.
 Print Assumptions premises_hold_for_an_example.
+
+(* ---------- every leaf form, without the leaf_spec hypothesis (LeafForms.v) ---------- *)
+(* Leaf grammar: lform ::= head ctail | '!' head; head ::= var/flag/defeated ( operand ) | AutoVar name | AutoVar name ( args );
+   ctail ::= nothing | op value | op value ( ... ).  form_parses: the leaf parser consumes exactly the tokens of a well-formed
+   leaf and returns its record (kind, operand, operator, value, strict flag, preamble command); form_leaf_meaning /
+   value_leaf_meaning / autovar_leaf_meaning: the record means what the manual says (value(...) compares with the value as
+   written, an AutoVar leaf runs its command, then compares the configured variable); condition_parses_to_its_meaning_forms:
+   for every condition built from these leaves with && || ! ( ), the parser consumes exactly its tokens and returns a tree whose
+   evaluation is the left-to-right short-circuit evaluation of the written condition - no hypothesis about the leaf parser left;
+   accepted_plain_leaf_is_a_form: conversely every accepted leaf without preamble is of this grammar. *)
+From Pory Require Consume.
+From Pory Require Import CmdArgs ConstSites LeafForms.
+Theorem form_parses :
+  forall (autovars : list (text * autovar)) (switches : list (text * text)) (env_errors : bool)
+    (parse_format : toks -> res (token * text * text * toks)) (consts : list (text * text)) (script : text) (lf : lform) 
+    (R : list token),
+  wf_lform autovars switches env_errors parse_format lf ->
+  follow R ->
+  forall (f : nat) (pre : token),
+  1 + Datatypes.length (form_toks lf) <= f ->
+  leaf_expr autovars switches env_errors parse_format consts f script (pre :: form_toks lf ++ R) =
+  Ok (form_leaf autovars consts lf (Datatypes.length R), form_imp script lf (Datatypes.length R), R).
+Proof. exact LeafForms.form_parses. Qed.
+Print Assumptions form_parses.
+
+Theorem pure_form_leaf_spec :
+  forall (autovars : list (text * autovar)) (switches : list (text * text)) (env_errors : bool)
+    (parse_format : toks -> res (token * text * text * toks)) (consts : list (text * text)) (script : text) (F0 : nat) 
+    (lf : lform),
+  1 <= F0 ->
+  wf_lform autovars switches env_errors parse_format lf ->
+  pure_form lf -> leaf_spec autovars switches env_errors parse_format consts script F0 (form_toks lf) (form_leaf autovars consts lf 0) imp0.
+Proof. exact LeafForms.pure_form_leaf_spec. Qed.
+Print Assumptions pure_form_leaf_spec.
+
+Theorem leaf_varcmp_value :
+  forall (autovars : list (text * autovar)) (switches : list (text * text)) (env_errors : bool)
+    (parse_format : toks -> res (token * text * text * toks)) (consts : list (text * text)) (script : text) (F0 : nat) 
+    (k lp : token) (ops : list token) (rp o : token) (op : cmpop) (vt lp2 : token) (seg : list token) (rp2 : token),
+  1 <= F0 ->
+  ttype k = VAR ->
+  ttype lp = LPAREN ->
+  operand_ok ops ->
+  ttype rp = RPAREN ->
+  is_cmp_tok o = Some op ->
+  ttype vt = VALUE ->
+  ttype lp2 = LPAREN ->
+  ttype rp2 = RPAREN ->
+  pdepth 0 seg = Some 0 ->
+  Forall (fun x : token => ttype x <> EOF) seg ->
+  leaf_spec autovars switches env_errors parse_format consts script F0 (k :: lp :: ops ++ rp :: o :: vt :: lp2 :: seg ++ [rp2])
+    (mkleaf consts k ops op (join sp (wrap_value (map (cr consts) seg))) true) imp0.
+Proof. exact LeafForms.leaf_varcmp_value. Qed.
+Print Assumptions leaf_varcmp_value.
+
+Theorem parser_builds_tree_forms :
+  forall (autovars : list (text * autovar)) (switches : list (text * text)) (env_errors : bool)
+    (parse_format : toks -> res (token * text * text * toks)) (consts : list (text * text)) (script : text),
+  (forall a : catom, CPatom autovars switches env_errors parse_format consts script a) /\
+  (forall t : ctl, CPtl autovars switches env_errors parse_format consts script t) /\
+  (forall e : cexpr, CPexpr autovars switches env_errors parse_format consts script e).
+Proof. exact LeafForms.parser_builds_tree_forms. Qed.
+Print Assumptions parser_builds_tree_forms.
+
+Theorem condition_parses_to_its_meaning_forms :
+  forall (autovars : list (text * autovar)) (switches : list (text * text)) (env_errors : bool)
+    (parse_format : toks -> res (token * text * text * toks)) (consts : list (text * text)) (script : text) (St : Type)
+    (exec : cmd -> St -> stepres St) (flag_set trainer_beaten : text -> St -> bool) (cmp_var cmp_var_value : text -> text -> St -> comparison)
+    (e : cexpr) (lp : token) (rest : list token) (f : nat),
+  wfc_expr autovars switches env_errors parse_format e ->
+  stop rest ->
+  3 * Datatypes.length (toks_expr e) + 2 <= f ->
+  exists (T : bexp) (imp' : impdata),
+    bool_expr autovars switches env_errors parse_format consts f false false script (lp :: toks_expr e ++ rest) = Ok (T, imp', rest) /\
+    T = tree_expr false (el_expr autovars consts script (Datatypes.length rest) e) /\
+    imp_eq imp' (imp_expr (el_expr autovars consts script (Datatypes.length rest) e)) /\
+    (forall s : St,
+     eval_bexp St exec flag_set trainer_beaten cmp_var cmp_var_value T s =
+     cev_expr autovars consts St exec flag_set trainer_beaten cmp_var cmp_var_value (Datatypes.length rest) e s).
+Proof. exact LeafForms.condition_parses_to_its_meaning_forms. Qed.
+Print Assumptions condition_parses_to_its_meaning_forms.
+
+Theorem condition_value_is_precedence_reading_forms :
+  forall (autovars : list (text * autovar)) (switches : list (text * text)) (env_errors : bool)
+    (parse_format : toks -> res (token * text * text * toks)) (consts : list (text * text)) (script : text) (St : Type)
+    (exec : cmd -> St -> stepres St) (flag_set trainer_beaten : text -> St -> bool) (cmp_var cmp_var_value : text -> text -> St -> comparison)
+    (e : cexpr) (lp : token) (rest : list token) (f : nat),
+  wfc_expr autovars switches env_errors parse_format e ->
+  purec_expr e ->
+  stop rest ->
+  3 * Datatypes.length (toks_expr e) + 2 <= f ->
+  exists (T : bexp) (imp' : impdata),
+    bool_expr autovars switches env_errors parse_format consts f false false script (lp :: toks_expr e ++ rest) = Ok (T, imp', rest) /\
+    (forall s : St,
+     eval_bexp St exec flag_set trainer_beaten cmp_var cmp_var_value T s =
+     ([], s, Some (existsb (forallb (cden_atom autovars consts St flag_set trainer_beaten cmp_var cmp_var_value s)) (cflat_expr e)))).
+Proof. exact LeafForms.condition_value_is_precedence_reading_forms. Qed.
+Print Assumptions condition_value_is_precedence_reading_forms.
+
+Theorem value_leaf_meaning :
+  forall (consts : list (text * text)) (St : Type) (flag_set trainer_beaten : text -> St -> bool)
+    (cmp_var cmp_var_value : text -> text -> St -> comparison) (k : token) (ops : list token) (o : cmpop) (v : text) 
+    (s : St),
+  ttype k = VAR ->
+  leaf_holds St flag_set trainer_beaten cmp_var cmp_var_value (mkleaf consts k ops o v true) s =
+  cmp_holds o (cmp_var_value (opnd consts ops) v s).
+Proof. exact LeafForms.value_leaf_meaning. Qed.
+Print Assumptions value_leaf_meaning.
+
+Theorem form_leaf_meaning :
+  forall (autovars : list (text * autovar)) (switches : list (text * text)) (env_errors : bool)
+    (parse_format : toks -> res (token * text * text * toks)) (consts : list (text * text)) (St : Type) (exec : cmd -> St -> stepres St)
+    (flag_set trainer_beaten : text -> St -> bool) (cmp_var cmp_var_value : text -> text -> St -> comparison) (lf : lform) 
+    (k : nat) (s : St),
+  wf_lform autovars switches env_errors parse_format lf ->
+  eval_leaf St exec flag_set trainer_beaten cmp_var cmp_var_value (form_leaf autovars consts lf k) s =
+  form_eval autovars consts St exec flag_set trainer_beaten cmp_var cmp_var_value lf k s.
+Proof. exact LeafForms.form_leaf_meaning. Qed.
+Print Assumptions form_leaf_meaning.
+
+Theorem autovar_leaf_meaning :
+  forall (autovars : list (text * autovar)) (switches : list (text * text)) (env_errors : bool)
+    (parse_format : toks -> res (token * text * text * toks)) (consts : list (text * text)) (St : Type) (exec : cmd -> St -> stepres St)
+    (flag_set trainer_beaten : text -> St -> bool) (cmp_var cmp_var_value : text -> text -> St -> comparison) (h : head) 
+    (c : ctail) (k : nat) (s : St) (cm : cmd),
+  wf_lform autovars switches env_errors parse_format (LPos h c) ->
+  head_cmd consts h (Datatypes.length (ctail_toks c) + k) = Some cm ->
+  eval_leaf St exec flag_set trainer_beaten cmp_var cmp_var_value (form_leaf autovars consts (LPos h c) k) s =
+  match exec cm s with
+  | Continue _ s' =>
+      ([cm], s',
+       Some
+         (cmp_holds (tail_op KVar c)
+            ((if tail_strict c then cmp_var_value else cmp_var) (head_operand autovars consts h) (tail_value consts KVar c) s')))
+  | Stop _ => ([cm], s, None)
+  end.
+Proof. exact LeafForms.autovar_leaf_meaning. Qed.
+Print Assumptions autovar_leaf_meaning.
+
+Theorem accepted_plain_leaf_is_a_form :
+  forall (autovars : list (text * autovar)) (switches : list (text * text)) (env_errors : bool)
+    (parse_format : toks -> res (token * text * text * toks)) (consts : list (text * text)) (script : text) (f : nat) 
+    (ts0 : toks) (l : leaf) (imp : impdata) (ts' : toks),
+  leaf_expr autovars switches env_errors parse_format consts f script ts0 = Ok (l, imp, ts') ->
+  Consume.eof_ended ts0 ->
+  lpre l = None ->
+  exists lf : lform,
+    pure_form lf /\
+    shape_form lf /\ ts0 = cur ts0 :: form_toks lf ++ ts' /\ l = form_leaf autovars consts lf 0 /\ imp = imp0 /\ next_ok lf (cur ts').
+Proof. exact LeafForms.accepted_plain_leaf_is_a_form. Qed.
+Print Assumptions accepted_plain_leaf_is_a_form.
+
+Theorem shape_wf :
+  forall (autovars : list (text * autovar)) (switches : list (text * text)) (env_errors : bool)
+    (parse_format : toks -> res (token * text * text * toks)) (lf : lform),
+  shape_form lf ->
+  Forall (fun x : token => ttype x <> EOF) (inner_toks lf) -> value_written lf -> wf_lform autovars switches env_errors parse_format lf.
+Proof. exact LeafForms.shape_wf. Qed.
+Print Assumptions shape_wf.
+
+Theorem accepted_autovar_leaf_partial :
+  forall (autovars : list (text * autovar)) (switches : list (text * text)) (env_errors : bool)
+    (parse_format : toks -> res (token * text * text * toks)) (consts : list (text * text)) (script : text) (f : nat) 
+    (ts0 : toks) (l : leaf) (imp : impdata) (ts' : toks) (c : cmd),
+  leaf_expr autovars switches env_errors parse_format consts f script ts0 = Ok (l, imp, ts') ->
+  lpre l = Some c ->
+  let ts := if peekis NOT ts0 then adv ts0 else ts0 in
+  exists (av : autovar) (ts2 : toks),
+    peekis IDENT ts = true /\
+    assoc autovars (tlit (pk 1 ts)) = Some av /\
+    command_stmt switches env_errors parse_format consts f script (adv ts) = Ok (c, imp, ts2) /\
+    lk l = KVar /\
+    lline l = tline (ctok c) /\
+    loperand l = match avPos av with
+                 | Some p => nth (Z.to_nat p) (cargs c) []
+                 | None => avName av
+                 end /\
+    match avPos av with
+    | Some p => (0 <= p < Z.of_nat (Datatypes.length (cargs c)))%Z
+    | None => True
+    end /\
+    (if peekis NOT ts0
+     then lop l = OEq /\ lvalue l = t "0" /\ lstrict l = false /\ ts' = adv ts2
+     else cond_var_operator consts f (adv ts2) = Ok (lop l, lvalue l, lstrict l, ts')).
+Proof. exact LeafForms.accepted_autovar_leaf_partial. Qed.
+Print Assumptions accepted_autovar_leaf_partial.
+
